@@ -763,13 +763,19 @@ class Program:
             cache[k] = g
         return cache[k]
 
-    def awaited_inlined(self, fn, depth=1):
-        """a coroutine body with the bodies of the local async fns it awaits spliced in (rules/lib/inline.py); cached"""
+    def awaited_inlined(self, fn, depth=1, containing=None):
+        """a coroutine body with the bodies of the local async fns it awaits spliced in (rules/lib/inline.py); cached.
+        containing=<regex>: only helpers whose own body contains a call matching it (the helpers into which the
+        statements a rule looks for may have been moved -- not the callees the rule anchors on)"""
         from . import inline as _inline
         cache = self.__dict__.setdefault("_ainlined", {})
-        k = (fn.key, depth)
+        k = (fn.key, depth, containing)
         if k not in cache:
-            cache[k] = _inline.inline_async(self, fn, depth)
+            acc = None
+            if containing is not None:
+                rx = re.compile(containing)
+                acc = lambda caller, body: any(rx.search(c.callee or "") or rx.search(c.decl or "") for c in body.calls())
+            cache[k] = _inline.inline_async(self, fn, depth, acc)
         return cache[k]
 
     def callers(self):
